@@ -233,6 +233,13 @@ impl<'tcx> Cx<'tcx> {
         if let Const::Unevaluated(uv, _) = c.const_ {
             if let Some(pi) = uv.promoted {
                 v.push(("promoted", J::I(pi.index() as i128)));
+            } else if !is_scalar {
+                // a named constant (`const MAGIC: &[u8] = b"..."`): its evaluated value, printed like a literal, so that
+                // replacing a literal by a named constant does not change what the rules see
+                if let Ok(val) = c.const_.eval(self.tcx, env, c.span) {
+                    let shown = with_no_trimmed_paths!(format!("{}", Const::Val(val, cty)));
+                    v.push(("sv", s(shown)));
+                }
             }
         }
         v.push(("s", s(with_no_trimmed_paths!(format!("{}", c.const_)))));
